@@ -108,7 +108,7 @@ theorem posting_account_only_ok (ind acc nl : Token) (rest : List Token) (errs :
   simp only [h1, ne_eq, not_true_eq_false, if_false, advance_list, h2, reduceCtorEq, or_self]
   unfold postingOpen
   simp only [h2, reduceCtorEq, if_false, ne_eq, not_true_eq_false, advance_list]
-  unfold postingTail
+  unfold postingTail postingClosing postingAmount postingCost postingAssertion lineComment
   simp only [h5, reduceCtorEq, if_false, or_self, Option.some.injEq, toRange]
 
 /-- `  assets:cash  12.50 EUR⏎`. -/
@@ -124,7 +124,7 @@ theorem posting_amount_ok (ind acc n com nl : Token) (rest : List Token) (errs :
   simp only [h1, ne_eq, not_true_eq_false, if_false, advance_list, h2, reduceCtorEq, or_self]
   unfold postingOpen
   simp only [h2, reduceCtorEq, if_false, ne_eq, not_true_eq_false, advance_list]
-  unfold postingTail
+  unfold postingTail postingClosing postingAmount postingCost postingAssertion lineComment
   simp only [h3, reduceCtorEq, if_false, if_true, or_true, true_or, Option.some.injEq,
     amount_number_commodity_ok num cls n com nl rest errs dy q h3 h4 hq, h5, or_self, toRange]
 
